@@ -5,6 +5,7 @@ package main
 
 import (
 	"fmt"
+	"go/constant"
 	"go/token"
 	"go/types"
 	"strings"
@@ -41,6 +42,9 @@ func checkC07(c *Ctx) {
 }
 
 // --- LA-runkind ---
+
+// varintWriters: the functions that RLE run headers are handed to (filled by laRunKind, checked by laLEB).
+var varintWriters = map[*ssa.Function]bool{}
 
 func reachesCallee(u *Universe, f *ssa.Function, full string) bool {
 	for g := range u.reach([]*ssa.Function{f}) {
@@ -88,6 +92,7 @@ func laRunKind(c *Ctx) {
 		encReach[f] = true
 	}
 	nBP, nRLE := 0, 0
+	varintWriters = map[*ssa.Function]bool{}
 	// Candidates are recognised by what they carry in the bits above the run-kind bit, not by their syntactic form:
 	// a byte whose bits 1.. are the group counter is a bit-packed run header; an integer handed to a callee whose
 	// bits 1.. are another counter field is an RLE run header.
@@ -142,6 +147,7 @@ func laRunKind(c *Ctx) {
 							continue
 						}
 						nRLE++
+						varintWriters[sc] = true
 						key := fmt.Sprintf("%s RLE run header #%d", u.FnName(f), nRLE)
 						if bv[0] == (bit{}) {
 							r.ok("LA-runkind", key, u.Pos(x.Pos()), "header = count << 1: LSB 0 (count from "+fld.Name()+")")
@@ -151,6 +157,59 @@ func laRunKind(c *Ctx) {
 					}
 				}
 			}
+		}
+	}
+	// the bit-packed run header is a single byte: (groups << 1) | 1 must stay below 0x80, i.e. a run may hold at most
+	// 63 groups. The function that adds a group must close the run when the counter has reached a bound K <= 63.
+	{
+		key := u.FnName(packFn) + " bit-packed run length bound"
+		bound := int64(-1)
+		var bpos string
+		for _, b := range packFn.Blocks {
+			iff, ok := lastInstr(b).(*ssa.If)
+			if !ok {
+				continue
+			}
+			bo, ok := iff.Cond.(*ssa.BinOp)
+			if !ok || fieldOfLoad(bo.X) != gc {
+				continue
+			}
+			k, ok := bo.Y.(*ssa.Const)
+			if !ok || k.Value == nil {
+				continue
+			}
+			v, _ := constant.Int64Val(k.Value)
+			switch bo.Op {
+			case token.GEQ, token.EQL:
+				bound = v
+			case token.GTR:
+				bound = v + 1
+			default:
+				continue
+			}
+			bpos = u.Pos(iff.Pos())
+			// the true side must close the run (reach a store of 0 to the counter) before the increment
+			closes := false
+			for g := range u.reach([]*ssa.Function{packFn}) {
+				for _, b2 := range g.Blocks {
+					for _, ins := range b2.Instrs {
+						if st, ok := ins.(*ssa.Store); ok && fieldOf(st.Addr) == gc && constIs(st.Val, 0) {
+							closes = true
+						}
+					}
+				}
+			}
+			if !closes {
+				bound = -1
+			}
+		}
+		switch {
+		case bound < 0:
+			r.bad("LA-runkind", key, u.Pos(packFn.Pos()), "no test `groups >= K` that closes the current bit-packed run before another group is added: a run can grow beyond what its one-byte header can say")
+		case bound > 63:
+			r.bad("LA-runkind", key, bpos, fmt.Sprintf("a bit-packed run is closed only at %d groups, but its header is the single byte (groups<<1)|1: from 64 groups on bit 7 (the varint continuation bit) is set and the stream is mis-parsed", bound))
+		default:
+			r.ok("LA-runkind", key, bpos, fmt.Sprintf("a run is closed at %d groups (<= 63): the header (groups<<1)|1 fits one varint byte", bound))
 		}
 	}
 	r.count("LA-runkind/bit-packed-headers", nBP)
@@ -254,6 +313,14 @@ func laLEB(c *Ctx) {
 	r, u := c.R, c.U
 	fns := rleFuncs(u)
 	nEnc, nDec := 0, 0
+	matched := map[*ssa.Function]bool{}
+	defer func() {
+		for f := range varintWriters {
+			if !matched[f] {
+				r.bad("LA-leb128", u.FnName(f)+" varint writer", u.Pos(f.Pos()), "the function that encodes RLE run headers is not a LEB128 loop (7 value bits per byte while the value is >= 128): long runs get a malformed header")
+			}
+		}
+	}()
 	for _, f := range fns {
 		// writer: a loop that appends single bytes built from an integer parameter
 		if len(f.Params) >= 1 {
@@ -273,6 +340,7 @@ func laLEB(c *Ctx) {
 			}
 			if valPhi != nil && returnsByteSlice(f) {
 				nEnc++
+				matched[f] = true
 				checkLEBWriter(c, f, valPhi)
 			}
 		}
